@@ -30,6 +30,8 @@ def generate(rng, tier, index):
     if rng.random() < 0.2:
         kw['retry_on_invalid'] = True
     kw['backoff'] = rng.choice([0.01, 0.05])
+    if kind == 'serial' and rng.random() < 0.15:
+        kw['handle_local_echo'] = True
     faulty = rng.random() < 0.5
     gen = cc.OpGen(rng, framing)
     units = rng.choice([[1], [1], [17], [1, 2], [0], [255], [247, 3]])
@@ -69,11 +71,14 @@ def generate(rng, tier, index):
                 script.append({'act': 'wrong_unit', 'du': rng.choice([1, 5, 255])})
             else:
                 script.append({'act': act})
-        elif kind in ('tcp', 'tls') and len(good) > 3 and rng.random() < 0.3:
+        elif kind in ('tcp', 'serial') and len(good) > 3 and rng.random() < 0.3:     # (TLS: a record is never split by the stub)
             script.append({'act': 'exception' if 'exc' in op['reply'] else 'reply',
                            'code': op['reply'].get('exc', 2),
                            'cuts': sorted(set(rng.randrange(1, len(good)) for _ in range(rng.randint(1, 3)))),
-                           'cutgap': rng.choice([0.0, 0.001, timeout / 10])})
+                           # serial: pieces model driver read chunking of a contiguous frame (a pause
+                           # inside an RTU frame would violate t1.5 and is no conformant reply);
+                           # TCP: segments may be spaced out
+                           'cutgap': rng.choice([0.0, 0.0005]) if kind == 'serial' else rng.choice([0.0, 0.001, timeout / 10])})
         if script:
             op['script'] = script
         ops.append(op)
